@@ -374,4 +374,128 @@ theorem hasNode_false {s : State} {a : Addr} (h : hasNode s a = false) :
     s.nodeActive.has a = false ∧ s.nodeInactive.has a = false := by
   unfold hasNode at h; simpa using h
 
+/-! ### providers -/
+
+theorem provRegister_rec {s s' : State} {frm : Addr} {n i w d : Bytes} (h : provRegister s frm n i w d = .ok s')
+    (hi : RecInv s) : RecInv s' := by
+  obtain ⟨hno, s1, f1, rfl⟩ := provRegister_eff h
+  have e1 := nview_of_mframe f1.wide
+  have i1 : RecInv s1 := RecInv.of_nview e1 hi
+  have hA : s1.provActive.has frm = false := by
+    rw [show s1.provActive = s.provActive from congrArg NView.provActive e1]; exact (hasProvider_false hno).1
+  exact i1.of_prov rfl rfl rfl rfl (i1.provPart.setI rfl rfl hA)
+
+theorem provUpdated_addr (p : Provider) (n i w d : Bytes) (st : Status) (now : Time) :
+    (provUpdated p n i w d st now).addr = p.addr := by
+  unfold provUpdated; simp only []; split <;> split <;> rfl
+
+theorem provUpdated_status (p : Provider) (n i w d : Bytes) (st : Status) (now : Time) :
+    (provUpdated p n i w d st now).status = if st ≠ .StatusUnspecified then st else p.status := by
+  unfold provUpdated; simp only []; split <;> split <;> rfl
+
+theorem provUpdate_rec {s s' : State} {frm : Addr} {n i w d : Bytes} {st : Status} (h : provUpdate s frm n i w d st = .ok s')
+    (hi : RecInv s) : RecInv s' := by
+  unfold provUpdate at h
+  simp only [bind_eq_ok, pure_eq_ok, orReject_eq_ok] at h
+  obtain ⟨p, hp, s3, h3, rfl⟩ := h
+  have hP := hi.provPart
+  have hst' := provUpdated_status p n i w d st s.time
+  have hk := provUpdated_addr p n i w d st s.time
+  rcases getProvider_mem hp with hg | hg
+  · have hpa := hP.a frm p hg
+    have hps : p.status = .StatusActive := hpa.2
+    have hno := hP.notI_of_getA hg
+    cases st <;>
+      simp only [hps, ne_eq, reduceCtorEq, not_true_eq_false, not_false_eq_true, and_self, and_true,
+        and_false, if_true, if_false] at h3 hst'
+    all_goals
+      rcases setProvider_eff h3 with ⟨hs3, e⟩ | ⟨hs3, e⟩ <;> subst e <;> rw [hst'] at hs3 <;>
+      first
+        | exact absurd hs3 (by decide)
+        | exact hi.of_prov rfl rfl rfl rfl (hP.setA rfl hst' (by rw [hk, hpa.1]; exact hno))
+        | exact hi.of_prov rfl rfl rfl rfl (hP.toI rfl (hk.trans hpa.1) hst')
+  · have hpi := hP.i frm p hg
+    have hps : p.status = .StatusInactive := hpi.2
+    have hno := hP.notA_of_getI hg
+    cases st <;>
+      simp only [hps, ne_eq, reduceCtorEq, not_true_eq_false, not_false_eq_true, and_self, and_true,
+        and_false, if_true, if_false] at h3 hst'
+    all_goals
+      rcases setProvider_eff h3 with ⟨hs3, e⟩ | ⟨hs3, e⟩ <;> subst e <;> rw [hst'] at hs3 <;>
+      first
+        | exact absurd hs3 (by decide)
+        | exact hi.of_prov rfl rfl rfl rfl (hP.setI rfl hst' (by rw [hk, hpi.1]; exact hno))
+        | exact hi.of_prov rfl rfl rfl rfl (hP.toA rfl (hk.trans hpi.1) hst')
+
+/-! ### nodes -/
+
+theorem nodeRegister_rec {s s' : State} {frm : Addr} {gb hr : Coins} {url : Bytes} (h : nodeRegister s frm gb hr url = .ok s')
+    (hi : RecInv s) : RecInv s' := by
+  obtain ⟨hno, _, _, s1, f1, rfl⟩ := nodeRegister_eff h
+  have e1 := nview_of_mframe f1.wide
+  have i1 : RecInv s1 := RecInv.of_nview e1 hi
+  have hA : s1.nodeActive.has frm = false := by
+    rw [show s1.nodeActive = s.nodeActive from congrArg NView.nodeActive e1]; exact (hasNode_false hno).1
+  exact i1.of_node rfl rfl rfl rfl (i1.nodePart.setI rfl ⟨rfl, rfl⟩ hA)
+
+/-- Writing back a looked-up node whose address, status and deadline are unchanged. -/
+theorem setNode_same_rec {s s' : State} {a : Addr} {n n' : Node} (hi : RecInv s) (hg : getNode s a = some n)
+    (h : setNode s n' = .ok s') (haddr : n'.addr = n.addr) (hst : n'.status = n.status) (hia : n'.inactiveAt = n.inactiveAt) :
+    RecInv s' := by
+  have hN := hi.nodePart
+  rcases getNode_mem hg with hm | hm
+  · have hna := hN.a a n hm
+    have hno := hN.notI_of_getA hm
+    rcases setNode_eff h with ⟨hs, e⟩ | ⟨hs, e⟩ <;> subst e
+    · exact hi.of_node rfl rfl rfl rfl (hN.setA rfl hs (by rw [haddr, hna.1]; exact hno))
+    · rw [hst, hna.2] at hs; exact absurd hs (by decide)
+  · have hni := hN.i a n hm
+    have hno := hN.notA_of_getI hm
+    rcases setNode_eff h with ⟨hs, e⟩ | ⟨hs, e⟩ <;> subst e
+    · rw [hst, hni.2.1] at hs; exact absurd hs (by decide)
+    · exact hi.of_node rfl rfl rfl rfl (hN.setI rfl ⟨hs, by rw [hia]; exact hni.2.2⟩ (by rw [haddr, hni.1]; exact hno))
+
+theorem nodeUpdated_same (n : Node) (gb hr : Option Coins) (url : Bytes) :
+    (nodeUpdated n gb hr url).addr = n.addr ∧ (nodeUpdated n gb hr url).status = n.status ∧
+    (nodeUpdated n gb hr url).inactiveAt = n.inactiveAt := by
+  unfold nodeUpdated; cases gb <;> cases hr <;> simp only [] <;> split <;> exact ⟨rfl, rfl, rfl⟩
+
+theorem nodeUpdate_rec {s s' : State} {frm : Addr} {gb hr : Option Coins} {url : Bytes} (h : nodeUpdate s frm gb hr url = .ok s')
+    (hi : RecInv s) : RecInv s' := by
+  unfold nodeUpdate at h
+  simp only [bind_eq_ok, pure_eq_ok, require_eq_ok, orReject_eq_ok] at h
+  obtain ⟨_, _, _, _, n, hn, s1, h1, rfl⟩ := h
+  obtain ⟨e1, e2, e3⟩ := nodeUpdated_same n gb hr url
+  exact RecInv.of_nview (s := s1) rfl (setNode_same_rec hi hn h1 e1 e2 e3)
+
+theorem nodeStatus_rec {s s' : State} {frm : Addr} {st : Status} (h : nodeStatus s frm st = .ok s')
+    (hi : RecInv s) : RecInv s' := by
+  unfold nodeStatus at h
+  simp only [bind_eq_ok, pure_eq_ok, orReject_eq_ok] at h
+  obtain ⟨n, hn, s5, h5, rfl⟩ := h
+  have hN := hi.nodePart
+  rcases getNode_mem hn with hm | hm
+  · have hna := hN.a frm n hm
+    have hps : n.status = .StatusActive := hna.2
+    have hno : s.nodeInactive.has n.addr = false := by rw [hna.1]; exact hN.notI_of_getA hm
+    cases st <;>
+      simp only [hps, reduceCtorEq, and_self, and_true, and_false, if_true, if_false] at h5
+    all_goals
+      rcases setNode_eff h5 with ⟨hs5, e⟩ | ⟨hs5, e⟩ <;> subst e <;>
+      first
+        | exact absurd hs5 (by decide)
+        | exact hi.of_node rfl rfl rfl rfl (hN.setA rfl rfl hno)
+        | exact hi.of_node rfl rfl rfl rfl (hN.toI rfl hna.1 ⟨rfl, rfl⟩)
+  · have hni := hN.i frm n hm
+    have hps : n.status = .StatusInactive := hni.2.1
+    have hno : s.nodeActive.has n.addr = false := by rw [hni.1]; exact hN.notA_of_getI hm
+    cases st <;>
+      simp only [hps, reduceCtorEq, and_self, and_true, and_false, if_true, if_false] at h5
+    all_goals
+      rcases setNode_eff h5 with ⟨hs5, e⟩ | ⟨hs5, e⟩ <;> subst e <;>
+      first
+        | exact absurd hs5 (by decide)
+        | exact hi.of_node rfl rfl rfl rfl (hN.setI rfl ⟨rfl, rfl⟩ hno)
+        | exact hi.of_node rfl rfl rfl rfl (hN.toA rfl hni.1 rfl)
+
 end Hub.Model
